@@ -4,17 +4,28 @@ go 1.17
 
 require (
 	github.com/ElrondNetwork/elrond-go v1.1.59-0.20210526130950-2a93e2e11c39
+	github.com/ElrondNetwork/elrond-go-logger v1.0.4
 	github.com/anishathalye/porcupine v1.3.0
 )
 
 require (
-	github.com/ElrondNetwork/elrond-go-logger v1.0.4 // indirect
+	github.com/ElrondNetwork/concurrent-map v0.1.3 // indirect
 	github.com/ElrondNetwork/elrond-vm-common v1.0.0 // indirect
+	github.com/btcsuite/btcutil v1.0.3-0.20201208143702-a53e38424cce // indirect
 	github.com/denisbrodbeck/machineid v1.0.1 // indirect
 	github.com/gogo/protobuf v1.3.2 // indirect
 	github.com/golang/protobuf v1.5.2 // indirect
+	github.com/golang/snappy v0.0.1 // indirect
+	github.com/hashicorp/golang-lru v0.5.4 // indirect
+	github.com/herumi/bls-go-binary v1.0.0 // indirect
+	github.com/mitchellh/mapstructure v1.4.1 // indirect
 	github.com/mr-tron/base58 v1.2.0 // indirect
 	github.com/pelletier/go-toml v1.9.0 // indirect
+	github.com/pkg/errors v0.9.1 // indirect
+	github.com/shirou/gopsutil v0.0.0-20190901111213-e4ec7b275ada // indirect
+	github.com/syndtr/goleveldb v1.0.1-0.20190318030020-c3a204f8e965 // indirect
+	golang.org/x/crypto v0.0.0-20210322153248-0c34fe9e7dc2 // indirect
+	golang.org/x/sys v0.0.0-20210426080607-c94f62235c83 // indirect
 	google.golang.org/protobuf v1.26.0 // indirect
 )
 
